@@ -42,6 +42,6 @@ DesignShrinkOK ==
   (pi.ok /\ ~(pi.b64 /\ ~d.strict)) =>
      DataUriOK(U, Design(U, "shrink"), {MediatypeNorm(pi.mt).type},
                << [in |-> d.payload, out |-> SubFn("shrink", d.payload), err |-> FALSE] >>)
-\* the transcription of the pinned code violates the relation only on the constructs K1..K5a
+\* the transcription of the current code violates the relation only on the construct K4
 AsIsOKOutsideKnown == ~DataUriOK(U, AsIsNone(U), {}, <<>>) => KnownUri(U)
 =============================================================================
